@@ -7,6 +7,7 @@
 #include "core/profile.h"
 #include "core/util.h"
 #include "oracle/stepguard.h"
+#include "oracle/dump.h"
 #include "seams/capture.h"
 #include "seams/sanreports.h"
 #include "seams/vfhost.h"
@@ -136,6 +137,12 @@ static std::vector<Cat> catalogue() {
   pe("A = 1; end;\n"); pe("function FB(P) return integer is\nbegin\n  return P +;\nend;\n"); pe("A = \"unterminated;\n");
   pe("A = T.at(;\n"); pe("A = tup(1, 2)@;\n"); pe("if A then\n"); pe("A = FA(1, 2, 3);\n"); pe("A = 1 2;\n"); pe("print A.nosuch();\n"); pe(")\n");
   pe("A = T.put(0;\n"); pe("forall E in 5 loop print E; end loop;\n"); pe("A = str(1, 2, 3, 4);\n"); pe("raise;\n"); pe("import nosuchmodule;\n"); pe("A = 99999999999999999999999;\n");
+  // errors inside loops over variables the host already owns: the rejected text must give every lock and constraint back
+  auto has_tab = [](const MCtx& m) { auto it = m.vars.find("T"); return it != m.vars.end() && it->second.known && it->second.ndim == 1 && !it->second.null; };
+  auto pe2 = [&](const std::string& t, std::function<bool(const MCtx&)> u) { Cat x; x.text = t; x.kind = P_PARSE; x.err = 0; x.effect = [](MCtx&) {}; x.usable = u; c.push_back(x); };
+  pe2("forall E in T loop\n  A = ;\nend loop;\n", has_tab); pe2("forall E in T loop end loop;\n", has_tab); pe2("forall E in T loop\n  forall F in T loop\n    A = (;\n  end loop;\nend loop;\n", has_tab);
+  pe2("forall E in T loop\n  print E;\n", has_tab); pe2("for I in 1 to 3 loop\n  forall E in T loop\n    A = I +;\n  end loop;\nend loop;\n", has_tab);
+  ok("do T.concat(4);\nforall E in T loop\n  E = E + 0;\nend loop;\n", [](MCtx& m) { m.vars["T"].tab.push_back(4); MV e; e.major = INTEGER; e.null = true; m.vars["E"] = e; }, has_tab);
   return c;
 }
 
@@ -301,7 +308,7 @@ struct C15 : Profile {
                 end_leases(ci);
                 bloc_parsing_position pos = {-7, -7}; bool with_pos = c3 % 2;
                 bloc_executable* x = bloc_parse_executable(c.h, p.text.c_str(), with_pos ? &pos : nullptr);
-                if (p.kind == P_PARSE) { went_through_fault = true; ++res.faults[with_pos ? "parse_error_with_position" : "parse_error"]; if (x) { H.fail("C15/bad-program-accepted", p.text); bloc_free_executable(x); } else errors_set("bloc_parse_executable('" + printable(p.text, 40) + "')", 0); break; }
+                if (p.kind == P_PARSE) { went_through_fault = true; ++res.faults[with_pos ? "parse_error_with_position" : "parse_error"]; if (x) { H.fail("C15/bad-program-accepted", p.text); bloc_free_executable(x); } else { errors_set("bloc_parse_executable('" + printable(p.text, 40) + "')", 0); std::string rs = check_residue(*reinterpret_cast<bloc::Context*>(c.h)); if (!rs.empty()) H.fail("C15/residue-after-rejected-text", rs + " after '" + printable(p.text, 40) + "'"); } break; }
                 if (!x) { H.fail("C15/program-rejected", printable(p.text, 60) + ": " + bloc_strerror()); break; }
                 // symbols introduced by the text exist from now on (so that clones made later have their slots)
                 H.exes.push_back({x, ci, (int)k, true, ++tick}); break; }
@@ -343,7 +350,8 @@ struct C15 : Profile {
                 bloc_parsing_position pos = {-7, -7};
                 bloc_executable* x = bloc_parse_executable(c.h, bad.c_str(), (b % 2) ? &pos : nullptr);
                 if (x) { ++res.probes["damaged_text_accepted"]; bloc_free_executable(x); }
-                else { went_through_fault = true; ++res.faults["damaged_text_rejected"]; errors_set("bloc_parse_executable(damaged: " + desc + ")", 0); }
+                else { went_through_fault = true; ++res.faults["damaged_text_rejected"]; errors_set("bloc_parse_executable(damaged: " + desc + ")", 0);
+                       std::string rs = check_residue(*reinterpret_cast<bloc::Context*>(c.h)); if (!rs.empty()) H.fail("C15/residue-after-rejected-text", rs + " (damaged: " + desc + ")"); }
                 // functions the accepted/rejected text may have declared are names of its own (f1, f2): the model does not use them
                 break; }
       case 16: { if (H.exes.empty()) break; size_t k = a % H.exes.size();
